@@ -439,8 +439,10 @@ _co('length_orbit', lambda g: (None, [g.f(0, 0.99), g.f(0.3, 100)], {}), 0.3, 30
 _co('passage_nodes_elliptic',
     lambda g: (None, [g.ang(5, 175), g.f(0, 0.97), g.f(0.3, 40), g.ep(-1900, 3900)] + ([g.b()] if g.rng.random() < 0.5 else []), {}),
     0.6, 200)
+# omega kept 20 degrees away from 0/180: the node passage of a parabolic orbit recedes as tan^3(v/2) * q^1.5 and
+# an instant before JD 0 is outside what Epoch documents (it fails with UnboundLocalError in get_date)
 _co('passage_nodes_parabolic',
-    lambda g: (None, [g.ang(5, 175), g.f(0.3, 8), g.ep(-1900, 3900)] + ([g.b()] if g.rng.random() < 0.5 else []), {}), 0.6, 200)
+    lambda g: (None, [g.ang(20, 160), g.f(0.3, 8), g.ep(-1900, 3900)] + ([g.b()] if g.rng.random() < 0.5 else []), {}), 0.6, 200)
 
 
 def _triangle(g):
